@@ -86,6 +86,10 @@ impl ohkami::util::Stream for Plain {
     }
 }
 
+/// items with this prefix are what the filter of producer kinds 3 and 4 rejects; they are not among the expected messages
+const DROP: &str = "\u{7f}DROP";
+const PRODUCERS: [&str; 6] = ["DataStream::new", "From<Stream>", "stream::queue", "queue+filter", "Stream+filter+map", "Stream+chain"];
+
 thread_local! {
     static SCRIPT: RefCell<(Vec<Act>, usize, Option<Slot>)> = RefCell::new((vec![], 0, None));
 }
@@ -95,7 +99,23 @@ fn make_response(kind: usize, acts: Vec<Act>, slot: Slot) -> Response {
     match kind {
         0 => DataStream::<String>::new(move |mut s| Producer { acts, i: 0, push: move |m: String| s.send(m), slot }).into_response(),
         1 => DataStream::<String>::from(Plain { acts, i: 0, slot }).into_response(),
-        _ => Response::OK().with_stream(ohkami::util::stream::queue(move |mut q| Producer { acts, i: 0, push: move |m: String| q.push(m), slot })),
+        2 => Response::OK().with_stream(ohkami::util::stream::queue(move |mut q| Producer { acts, i: 0, push: move |m: String| q.push(m), slot })),
+        // the stream adaptors of ohkami::util::StreamExt between the producer and the response: a filter that rejects marked items (the script
+        // puts them before, between and after the real messages), an identity map, a chain of the script's two halves
+        3 => {
+            use ohkami::util::StreamExt;
+            DataStream::<String>::from(ohkami::util::stream::queue(move |mut q| Producer { acts, i: 0, push: move |m: String| q.push(m), slot }).filter(|m: &String| !m.starts_with(DROP))).into_response()
+        }
+        4 => {
+            use ohkami::util::StreamExt;
+            DataStream::<String>::from(Plain { acts, i: 0, slot }.filter(|m: &String| !m.starts_with(DROP)).map(|m: String| m)).into_response()
+        }
+        _ => {
+            use ohkami::util::StreamExt;
+            let cut = acts.len() / 2;
+            let (a, b) = (acts[..cut].to_vec(), acts[cut..].to_vec());
+            DataStream::<String>::from(Plain { acts: a, i: 0, slot: slot.clone() }.chain(Plain { acts: b, i: 0, slot })).into_response()
+        }
     }
 }
 
@@ -271,9 +291,22 @@ pub fn run(args: &Args, rep: &mut Report) {
             let n = *rng.pick_weighted(&[(1, 0usize), (3, 1), (4, 3), (3, 8), (1, if small { 8 } else { 30 })]);
             let n = if n == 0 { 0 } else { rng.range(1, n) };
             let mut classes = String::new();
-            let msgs: Vec<String> = (0..n).map(|_| { let (m, c) = gen_message(&mut rng, small); classes.push(c); m }).collect();
-            let (acts, shape) = gen_schedule(&mut rng, &msgs);
-            let kind = rng.below(3);
+            // one case in 40: a long run of short messages (255-700), so that more than 2^8 items are handed over without a pause in between
+            let long_run = !small && case % 40 == 7;
+            let msgs: Vec<String> = if long_run { rep.count("long_runs"); let k = *rng.pick(&[255usize, 256, 257, 300, 513, 700]); classes.push('R'); (0..k).map(|i| format!("m{i}")).collect() }
+                else { (0..n).map(|_| { let (m, c) = gen_message(&mut rng, small); classes.push(c); m }).collect() };
+            let (mut acts, mut shape) = gen_schedule(&mut rng, &msgs);
+            if long_run && rng.bool() { acts.retain(|a| matches!(a, Act::Push(_))); shape = "burst".into() }
+            let kind = rng.below(6);
+            if kind == 3 || kind == 4 {
+                // marked items the filter must swallow: in front of, between and behind the real messages (also as the very last item)
+                let k = rng.range(1, 4);
+                for j in 0..k {
+                    let at = match rng.below(4) { 0 => 0, 1 => acts.len(), _ => rng.below(acts.len() + 1) };
+                    acts.insert(at, Act::Push(format!("{DROP}{j}")));
+                }
+                shape.push_str("+drops");
+            }
             let mut cs: Vec<char> = classes.chars().collect();
             cs.sort();
             cs.dedup();
@@ -301,7 +334,7 @@ fn compress(shape: &str) -> String {
 fn check(rep: &mut Report, case: u64, router: &hook::Router, msgs: &[String], acts: Vec<Act>, shape: String, kind: usize) {
     rep.eval();
     rep.count("schedules");
-    rep.count(&format!("producer_kind:{}", ["DataStream::new", "From<Stream>", "stream::queue"][kind]));
+    rep.count(&format!("producer_kind:{}", PRODUCERS[kind]));
     // max burst = queue depth reached before a yield
     let mut depth = 0u64;
     let mut run = 0u64;
@@ -311,7 +344,7 @@ fn check(rep: &mut Report, case: u64, router: &hook::Router, msgs: &[String], ac
     rep.max("max_queue_depth", depth);
     let slot: Slot = Arc::new(Mutex::new(vec![]));
     SCRIPT.with(|s| *s.borrow_mut() = (acts.clone(), kind, Some(slot.clone())));
-    let pname = ["DataStream::new", "From<Stream>", "stream::queue"][kind];
+    let pname = PRODUCERS[kind];
     let cj = |extra: serde_json::Value| json!({"case_index": case, "producer": pname, "messages": msgs.iter().map(|m| if m.len() > 80 { format!("{}..({} bytes)", cut(m, 40), m.len()) } else { m.clone() }).collect::<Vec<_>>(), "schedule": shape, "detail": extra});
     // request through the real reader and router, response through the real send; external wakes are fired on idle turns
     let result = catch(|| {
